@@ -193,7 +193,7 @@ def skeleton(prog, chk):
     # unary minus / parentheses in primary_inner
     pi = prog.body(EXPR + "primary_inner")
     h = prog.hir[pi.id]
-    arms = _arms_by_variant(h)
+    arms = {k: prog.hir_expand(v) for k, v in _arms_by_variant(h).items()}  # an arm that hands over to a new helper: the helper's body counts
     sub = arms.get("Sub")
     ok = sub is not None and any(n.get("op") == "Neg" for n in hirq.exprs(sub, "Unary")) and "primary" in _called_fns(sub)
     chk.ob(ok, "A1.grammar", "primary:unary-minus", pi.where(), "unary minus negates the following primary", "unary minus is no longer `-(primary)`")
@@ -455,13 +455,28 @@ def malformed(prog, chk):
         ok = bool(peeks) and bool(el)
         if ok:
             pb, pt, _ = peeks[0]
-            isn = [x for x in b.call_sites(R.path_endswith("::is_none")) if R.origin(b, x[1]["args"][0], carriers={})[0] == "call" and R.origin(b, x[1]["args"][0], carriers={})[1] == pb]
-            if not isn:
-                ok = False
+            # the edge on which no token remains: `peek().is_none()` true, `peek().is_some()` false, or the None arm of a match on peek()
+            tt = ft = None
+            for pb, pt, _ in peeks:
+                for (ib, it, ic) in b.call_sites(lambda c: c.path.endswith("Option::<T>::is_none") or c.path.endswith("Option::<T>::is_some")):
+                    o_ = R.origin(b, it["args"][0], carriers={})
+                    if o_[0] == "call" and o_[1] == pb and b.term(it["t"])["k"] == "switch":
+                        a_, b_ = R.switch_targets_bool(b.term(it["t"]))
+                        tt, ft = (a_, b_) if ic.path.endswith("is_none") else (b_, a_)
+                if tt is None and pt.get("dest") and not pt["dest"][1]:
+                    sw_ = R.find_switch_on_discr(b, pt["t"], pt["dest"][0])
+                    if sw_:
+                        m_ = dict((v, tgt) for v, tgt in sw_[1]["vals"])
+                        none_t = m_.get(0, sw_[1]["otherwise"] if 1 in m_ else None)
+                        some_t = m_.get(1, sw_[1]["otherwise"] if 0 in m_ else None)
+                        if none_t is not None and some_t is not None and none_t != some_t:
+                            tt, ft = none_t, some_t
+                if tt is not None:
+                    break
+            if tt is None:
+                chk.undecided("A13.trailing-tokens", fn.split("::")[-1], b.where(), "how the end of the token list is tested (peek() is neither asked is_none() / is_some() nor matched on) is not read here")
+                continue
             else:
-                ib, it, _ = isn[0]
-                st = b.term(it["t"])
-                tt, ft = R.switch_targets_bool(st)
                 # every `Ok(v)` whose v is the value parsed by expr_list must be behind the is_none() == true edge
                 parsed_ok = []
                 for x, i, s_ in b.all_stmts():
